@@ -196,7 +196,7 @@ def oracle_case(case, out, stats):
 def run(ctx, rng, replay_case=None):
     stats = {"pieces": 0, "integrals": 0, "g_near_breakpoint": 0, "draws_to_coq": 0, "glue_tables": 0,
              "glue_queries": 0}
-    cases = [replay_case] if replay_case is not None else [gen_case(rng) for _ in range(ctx.n(24, 240))]
+    cases = [replay_case] if replay_case is not None else [gen_case(rng) for _ in range(ctx.n(24, 200))]
     chunks = [cases[i:i + 2] for i in range(0, len(cases), 2)]
     outs = C.run_driver_parallel(ctx, "c18_cellveto", [{"cases": ch} for ch in chunks])
     flat = [o for out in outs for o in out["out"]]
